@@ -3,7 +3,7 @@ use std::str::FromStr;
 
 use chemical_elements::{
     parse_formula, parse_formula_with_table, ChemicalComposition, ChemicalCompositionMap,
-    ChemicalCompositionVec, ChemicalElements, ElementSpecification, PERIODIC_TABLE,
+    ChemicalCompositionVec, ChemicalElements, ElementSpecification, PeriodicTable, PERIODIC_TABLE,
 };
 
 use crate::comp::{key, Reg};
@@ -62,6 +62,60 @@ pub fn parse_all(s: &str) -> String {
         ("map_from_str", res(guarded(|| ChemicalCompositionMap::from_str(s)), |c| {
             c.iter().map(|(k, v)| (k.element.symbol.clone(), k.isotope, *v)).collect()
         })),
+    ];
+    let first = outs[0].1.clone();
+    if outs.iter().all(|(_, o)| *o == first) {
+        first
+    } else {
+        format!("entry-points-differ {}", outs.iter().map(|(n, o)| format!("{n}={o}")).collect::<Vec<_>>().join(";"))
+    }
+}
+
+/// a caller-supplied table holding only the listed symbols of the built-in one (leaked: compositions borrow it)
+fn sub_table(symbols: &str) -> &'static PeriodicTable {
+    use std::collections::HashMap;
+    use std::sync::{Mutex, OnceLock};
+    static CACHE: OnceLock<Mutex<HashMap<String, &'static PeriodicTable>>> = OnceLock::new();
+    let mut cache = CACHE.get_or_init(|| Mutex::new(HashMap::new())).lock().unwrap();
+    if let Some(t) = cache.get(symbols) {
+        return t;
+    }
+    let mut t = PeriodicTable::new();
+    if symbols != "-" {
+        for sym in symbols.split(',') {
+            if let Some(e) = PERIODIC_TABLE.get(sym) {
+                t.add(e.clone());
+            }
+        }
+    }
+    let leaked: &'static PeriodicTable = Box::leak(Box::new(t));
+    cache.insert(symbols.to_string(), leaked);
+    leaked
+}
+
+/// the entry points that take a table, on a caller-supplied one
+pub fn parse_with_table(symbols: &str, s: &str) -> String {
+    let table = sub_table(symbols);
+    let outs: Vec<(&str, String)> = vec![
+        ("with_table", res(guarded(|| parse_formula_with_table(s, table)), ents_cc)),
+        ("parse_with", res(guarded(|| ChemicalComposition::parse_with(s, table)), ents_cc)),
+        ("helper", {
+            let r = guarded(|| {
+                let mut ce = ChemicalElements::new();
+                let mut t = PeriodicTable::new();
+                for e in table.elements.values() {
+                    t.add(e.clone());
+                }
+                ce.periodic_table = t;
+                let r = ce.parse_formula(s).map(|c| ents_cc(&c)).map_err(|_| ());
+                r
+            });
+            match r {
+                None => "panic".into(),
+                Some(Err(_)) => "err".into(),
+                Some(Ok(v)) => show_entries(v),
+            }
+        }),
     ];
     let first = outs[0].1.clone();
     if outs.iter().all(|(_, o)| *o == first) {
@@ -140,6 +194,7 @@ pub fn run_case(line: &str) -> String {
     let f: Vec<&str> = line.split('\t').collect();
     match (f.first().copied(), f.len()) {
         (Some("parse"), 2) => parse_all(&cps_arg(f[1])),
+        (Some("parsewith"), 3) => parse_with_table(f[1], &cps_arg(f[2])),
         (Some("display"), 3) => display(f[1], f[2]),
         (Some("specserde"), 2) => spec_serde(f[1]),
         _ => "bad-line".into(),
